@@ -13,10 +13,17 @@
 (*             "group"  : f1 inside a plain group g                           *)
 (*             "gunion" : the struct has a union {alt :Void, g :group}; the   *)
 (*                        group has its own union {galt :Void, f1}            *)
+(*             "union2" : the struct has a union {alt, f1} whose two members  *)
+(*                        have the same type and share one slot, with         *)
+(*                        different defaults (a default belongs to a field,   *)
+(*                        not to a slot)                                       *)
+(* GroupExtra: number of further data fields (g2 :UInt8 = 77, g3 :Bool,       *)
+(* g4 :UInt16) placed in the group behind f1 (groups with several fields,     *)
+(* followed by more fields of the parent).                                    *)
 (* dv is f1's discriminant value in its union (the Void takes the other one). *)
 EXTENDS Integers, Sequences, FiniteSets, TLC, Json
 
-CONSTANTS Fillers, Kinds, Followers, Members
+CONSTANTS Fillers, Kinds, Followers, Members, GroupExtra
 
 DataKinds == {"bool", "int8", "int16", "int32", "int64", "uint8", "uint16", "uint32", "uint64", "float32", "float64", "enum"}
 PtrKinds == {"text", "data", "struct", "list", "anyptr"}
@@ -41,9 +48,25 @@ NzDefault(k) == CASE k = "bool" -> <<1>>
                   [] k = "float64" -> <<0, 0, 0, 0, 0, 0, 4, 64>>  \* 2.5
                   [] k = "text" -> <<100, 102, 108, 116>>        \* "dflt"
                   [] k = "data" -> <<1, 2>>
+                  [] k = "struct" -> <<129>>                     \* T(x = 129)
+                  [] k = "list" -> <<52, 18>>                    \* [0x1234]
                   [] OTHER -> <<>>
+\* a second non-zero default of each kind (for the other member of a "union2")
+AltDefault(k) == CASE k = "bool" -> <<1>>
+                   [] k \in {"int8", "uint8"} -> <<66>>
+                   [] k \in {"int16", "uint16"} -> <<7, 3>>
+                   [] k = "enum" -> <<1, 0>>
+                   [] k \in {"int32", "uint32"} -> <<1, 2, 3, 4>>
+                   [] k = "float32" -> <<0, 0, 32, 64>>          \* 2.5
+                   [] k \in {"int64", "uint64"} -> <<8, 7, 6, 5, 4, 3, 2, 1>>
+                   [] k = "float64" -> <<0, 0, 0, 0, 0, 0, 248, 63>>  \* 1.5
+                   [] k = "text" -> <<97, 108, 116>>             \* "alt"
+                   [] k = "data" -> <<9>>
+                   [] k = "struct" -> <<17>>
+                   [] k = "list" -> <<9, 0>>
+                   [] OTHER -> <<>>
 ZeroDefault(k) == [i \in 1..(IF Bits(k) = 1 THEN 1 ELSE Bits(k) \div 8) |-> 0]
-HasNz(k) == k \in DataKinds \cup {"text", "data"}
+HasNz(k) == k \in DataKinds \cup {"text", "data", "struct", "list"}
 NoDisc == 65535
 
 VARIABLES phase, fields, bitpos, ptrpos, dcount, doff, gdcount, gdoff, gdisc, member
@@ -68,25 +91,36 @@ AddFiller == /\ phase = 0 /\ phase' = 1
 
 AddTested ==
   /\ phase = 1 /\ phase' = 2
-  /\ \E k \in Kinds, m \in Members, nz \in BOOLEAN, dv \in {0, 1} :
+  /\ \E k \in Kinds, m \in Members, nz \in BOOLEAN, dv \in {0, 1}, gx \in GroupExtra :
        /\ (nz => HasNz(k))
        /\ (m \in {"plain", "group"} => dv = 0)
        /\ (k = "void" => m \in {"union", "gunion"})            \* a Void only has accessors as a union member
+       /\ (m = "union2" => nz /\ HasNz(k))                      \* two members of one type with different non-zero defaults
+       /\ (gx > 0 => m \in {"group", "gunion"})
        /\ member' = m
-       /\ LET d1 == IF m \in {"union", "gunion"} THEN Place("uint16", bitpos, ptrpos) ELSE <<0, bitpos, ptrpos>>       \* struct union tag
+       /\ LET d1 == IF m \in {"union", "gunion", "union2"} THEN Place("uint16", bitpos, ptrpos) ELSE <<0, bitpos, ptrpos>>       \* struct union tag
               d2 == IF m = "gunion" THEN Place("uint16", d1[2], d1[3]) ELSE <<0, d1[2], d1[3]>>                       \* group union tag
               p == Place(k, d2[2], d2[3])
               dflt == IF nz THEN NzDefault(k) ELSE IF k \in DataKinds THEN ZeroDefault(k) ELSE <<>>
               g == IF m \in {"group", "gunion"} THEN "g" ELSE ""
-              f1 == Fld("f1", k, p[1], dflt, IF m \in {"union", "gunion"} THEN dv ELSE NoDisc, g)
-          IN /\ bitpos' = p[2] /\ ptrpos' = p[3]
-             /\ dcount' = (IF m \in {"union", "gunion"} THEN 2 ELSE 0) /\ doff' = d1[1]
+              f1 == Fld("f1", k, p[1], dflt, IF m \in {"union", "gunion", "union2"} THEN dv ELSE NoDisc, g)
+              \* further fields of the group
+              x2 == Place("uint8", p[2], p[3])
+              x3 == Place("bool", x2[2], x2[3])
+              x4 == Place("uint16", x3[2], x3[3])
+              extra == (IF gx >= 1 THEN <<Fld("g2", "uint8", x2[1], <<77>>, NoDisc, "g")>> ELSE <<>>)
+                       \o (IF gx >= 2 THEN <<Fld("g3", "bool", x3[1], <<0>>, NoDisc, "g")>> ELSE <<>>)
+                       \o (IF gx >= 3 THEN <<Fld("g4", "uint16", x4[1], <<0, 0>>, NoDisc, "g")>> ELSE <<>>)
+              last == IF gx >= 3 THEN x4 ELSE IF gx = 2 THEN x3 ELSE IF gx = 1 THEN x2 ELSE p
+          IN /\ bitpos' = last[2] /\ ptrpos' = last[3]
+             /\ dcount' = (IF m \in {"union", "gunion", "union2"} THEN 2 ELSE 0) /\ doff' = d1[1]
              /\ gdcount' = (IF m = "gunion" THEN 2 ELSE 0) /\ gdoff' = d2[1]
              /\ gdisc' = (IF m = "gunion" THEN dv ELSE NoDisc)
              /\ fields' = fields \o
                    (IF m = "union" THEN <<Fld("alt", "void", 0, <<>>, 1 - dv, "")>>
+                    ELSE IF m = "union2" THEN <<Fld("alt", k, p[1], AltDefault(k), 1 - dv, "")>>
                     ELSE IF m = "gunion" THEN <<Fld("alt", "void", 0, <<>>, 1 - dv, ""), Fld("galt", "void", 0, <<>>, 1 - dv, "g")>>
-                    ELSE <<>>) \o <<f1>>
+                    ELSE <<>>) \o <<f1>> \o extra
 
 AddFollower == /\ phase = 2 /\ phase' = 3
                /\ \E k \in Followers :
@@ -101,11 +135,13 @@ Spec == Init /\ [][Next]_vars
 \* ---- the declared layout is consistent (design check of the generator itself)
 Extent(f) == IF f.kind \in DataKinds THEN {f.off * Bits(f.kind) + i : i \in 0..(Bits(f.kind) - 1)} ELSE {}
 TagExtents == (IF dcount > 0 THEN {doff * 16 + i : i \in 0..15} ELSE {}) \cup (IF gdcount > 0 THEN {gdoff * 16 + i : i \in 0..15} ELSE {})
+\* members of one union are never active together: they may share storage
+SameUnion(f, g) == f.disc # NoDisc /\ g.disc # NoDisc /\ f.grp = g.grp /\ f.disc # g.disc
 Consistent ==
-  /\ \A i, j \in 1..Len(fields) : i # j => Extent(fields[i]) \cap Extent(fields[j]) = {}
+  /\ \A i, j \in 1..Len(fields) : (i # j /\ ~SameUnion(fields[i], fields[j])) => Extent(fields[i]) \cap Extent(fields[j]) = {}
   /\ \A i \in 1..Len(fields) : Extent(fields[i]) \cap TagExtents = {}
   /\ \A i \in 1..Len(fields) : \A x \in Extent(fields[i]) : x < bitpos
-  /\ \A i, j \in 1..Len(fields) : (i # j /\ fields[i].kind \in PtrKinds /\ fields[j].kind \in PtrKinds) => fields[i].off # fields[j].off
+  /\ \A i, j \in 1..Len(fields) : (i # j /\ fields[i].kind \in PtrKinds /\ fields[j].kind \in PtrKinds /\ ~SameUnion(fields[i], fields[j])) => fields[i].off # fields[j].off
   /\ \A i \in 1..Len(fields) : fields[i].kind \in PtrKinds => fields[i].off < ptrpos
 
 Emit == phase = 3 => PrintT(<<"STRUCT", ToJson([fields |-> fields, dataWords |-> (bitpos + 63) \div 64, ptrs |-> ptrpos,
